@@ -83,6 +83,15 @@ CLAIMED["C14"] = ("writer/reader sequence agreement derived by abstract interpre
     "hand-written pairs (incl. Option/nested payload nesting and per-element loop sequences), automata use serialize/deserialize_unchecked of one type on the decoded "
     "bytes, remainder = data[consumed..], fixed vectors go through trim/From, single bincode configuration, deserialisation is unsafe-only. "
     "Behavioural equality is not decided.", "DESIGN.md §4 C14")
+CLAIMED["C17"] = ("error-discipline + who-may-call (I/O) analysis with must-read summaries; linear forms, kind/role flow and decision tables of the converter",
+    "Truncation clause: every read Result propagated, input consumed only through read_exact helpers, the two EOF-tolerant calls always followed by a helper read "
+    "(interprocedural must-read). Conversion clause (structural): letter table incl. 0x04 skip / error arm, weight slice forms per kind, Model::new argument flow, "
+    "dictionary offsets/roles/membership bit/bucket/record layout, bias. Trie walk and malformed-file panics are not decided.", "DESIGN.md §4 C17")
+CLAIMED["C18"] = ("unsafe-operation inventory against a frozen obligation table; obligations re-derived as linear forms / pairing / who-may-call rules on the MIR",
+    "Every unsafe operation of the workspace is inventoried (new or removed operations are reported) and its recorded precondition argument is re-derived: "
+    "byte->char map sizing/filling and argument provenance, pattern/weight parallel arrays, state vector sizing/index forms, token-id provenance, wsconst ranges, "
+    "UTF-8 validity of the as_mut_vec region (complete), to_int_unchecked guards, unsafe-only deserialisation, non-empty sentence. The accumulated-offset sites of two "
+    "filters and daachorse's match contract are assumptions, listed in the evidence.", "DESIGN.md §4 C18")
 NOT_YET = {}
 
 def main():
